@@ -115,7 +115,7 @@ def _dec(x):
 
 class SymObj(SymRef):
     """an arbitrary user object; ``kind`` in 'function', 'instance' (callable instance), 'method', 'builtin'"""
-    __slots__ = ('kind', 'slots', 'defaults', 'postponed', 'entry', 'truthy', 'descriptors')
+    __slots__ = ('kind', 'slots', 'defaults', 'postponed', 'entry', 'truthy', 'descriptors', 'frozen')
 
     def __init__(self, name, kind='function', slots=None, defaults=None):
         SymRef.__init__(self, z3.Const(name, RefS), label=name)
@@ -128,6 +128,9 @@ class SymObj(SymRef):
         # name -> (cond, product): when the object is a CLASS, what its own namespace stores under ``name`` may be a
         # descriptor - attribute lookup then yields what the descriptor computes (``product``), not the stored object
         self.descriptors = {}
+        # None, or a Bool term: the object refuses every attribute assignment and deletion with an AttributeError (a frozen
+        # dataclass instance, a class with a forbidding __setattr__ / __delattr__): both, or neither
+        self.frozen = None
 
     def __bool__(self):
         if self.truthy is None:
@@ -184,6 +187,8 @@ class SymObj(SymRef):
         raise PyExc(AttributeError, ('%s object has no attribute %r' % (self.kind, name),))
 
     def _vf_setattr(self, interp, name, v):
+        if self.frozen is not None and _dec(self.frozen):
+            raise PyExc(AttributeError, ('cannot assign to field %r' % name,))
         sym.note_write(self)
         s = self.slots.get(name)
         if s is None:
@@ -194,6 +199,8 @@ class SymObj(SymRef):
     def _vf_delattr(self, interp, name):
         s = self.slots.get(name)
         if s is not None and _dec(s.inst):
+            if self.frozen is not None and _dec(self.frozen):
+                raise PyExc(AttributeError, ('cannot delete field %r' % name,))
             sym.note_write(self)
             s.inst = False
             return
